@@ -238,3 +238,27 @@ func init() {
 		return uint64(len(orig))
 	})
 }
+
+// http.DetectContentType: net/http's init (the signature table) is not interpreted; the
+// sniffer is run natively on the concrete prefix. A symbolic byte inside the sniffed prefix
+// (first 512 bytes) is outside the model.
+func init() {
+	reg("net/http.DetectContentType", func(fr *frame, args []value) value {
+		data := args[0].([]value)
+		if len(data) > 512 {
+			data = data[:512]
+		}
+		b := make([]byte, len(data))
+		for i, x := range data {
+			c, ok := x.(uint8)
+			if !ok {
+				if _, bad := x.(poison); bad {
+					panic(memError("read of freed C memory"))
+				}
+				panic(engineAbort{psInconclusive, "http.DetectContentType on a symbolic byte within the first 512 bytes"})
+			}
+			b[i] = c
+		}
+		return nativeDetectContentType(b)
+	})
+}
